@@ -1211,6 +1211,12 @@ def _get_cached_arg_spec(fn: Callable[..., Any]) -> inspect.FullArgSpec:
     except TypeError:
       # `fn` might be a callable object.
       arg_spec = inspect.getfullargspec(fn.__call__)
+    if inspect.ismethod(fn) or (
+        not inspect.isroutine(fn) and not inspect.isclass(fn) and
+        inspect.ismethod(getattr(fn, '__call__', None))):
+      # For a bound method or a callable object the argspec still starts with
+      # the instance (`self`), which is already bound: callers never supply it.
+      arg_spec = arg_spec._replace(args=arg_spec.args[1:])
     _ARG_SPEC_CACHE[fn] = arg_spec
   return arg_spec
 
